@@ -203,6 +203,11 @@ func intersect[T constraints.Integer](intv Interval[T], inters []Interval[T]) ([
 		begin := max(intv.Begin(), inter.Begin())
 		end := min(intv.End(), inter.End())
 		intvs = append(intvs, New(begin, end))
+
+		// The rest of inter can still overlap following intervals.
+		if intv.End() < inter.End() {
+			break
+		}
 	}
 
 	return intvs, cnt - 1
